@@ -105,6 +105,7 @@ func (fw *faultWorld) dial(ctx context.Context) (net.Conn, error) {
 		}
 		return 0, broken, true
 	}
+	a.EOFWithData = fw.chunk == 0 // in every second case the last bytes before a close arrive together with io.EOF
 	go fw.serve(g, b)
 	return a, nil
 }
